@@ -173,6 +173,19 @@ func (sc *serverConn) processData(f *DataFrame) error {
 	// with a stream error of type STREAM_CLOSED.
 	id := uint32(f.StreamId)
 	st, ok := sc.streams[id]
+	if !ok || st.state != stateOpen {
+		// The data is thrown away, but the sender has charged it to the
+		// session window: enforce that window and give the bytes back at
+		// once, since nobody is going to consume them.
+		if n := len(f.Data); n > 0 {
+			if int(sc.inflow.available()) < n {
+				state.SpdyErrFlowControl.Inc(1)
+				return StreamError{id, FlowControlError}
+			}
+			sc.inflow.take(int32(n))
+			sc.sendWindowUpdate(nil, n)
+		}
+	}
 	if !ok {
 		state.SpdyErrInvalidDataStream.Inc(1)
 		return StreamError{id, InvalidStream}
